@@ -1,41 +1,49 @@
-"""Configuration of ./check for C13 (see tools/props.py)."""
+"""C13 entry for tools/props.py (PROPS["C13"] = ENTRY)."""
+
 ENTRY = {'coq_dir': 'C13',
  'harness': 'c13',
- 'cases': {'quick': 1500, 'thorough': 40000},
+ 'cases': {'quick': 3000, 'thorough': 40000},
  'consts': ['REQUEST_TIMEOUT_SECS'],
  'nontrivial_min_trace': 40,
- 'rule': 'seeded random histories (3-45 stimuli quick, 5-120 thorough) over <=4 peers, in four styles (outbound-, dial-, inbound-heavy, '
-         'uniform): send_request with Dial/Reject, cancel_request, send_response/reject_request, ConnectionEstablished (also with a dead '
-         'command channel)/ConnectionClosed/DialFailure/SubstreamOpened/SubstreamOpenFailure in any order, carriers that block, accept or '
-         'fail writes, remote responses/EOF/reset, clock advances across the request timeout, inbound substreams with and without a bound, '
-         'payload lengths {0,1,2,7,max-1,max,max+1}; the real RequestResponseProtocol over a real TransportService is single-stepped until '
-         'idle after every stimulus, and the user-visible events, the frames that reached the remote end and the sorted private '
-         'bookkeeping (peers/active/active_inbound, pending_dials, pending_outbound, cancel handles, the three future counts) are compared '
-         'with the extracted Coq model after every stimulus; non-trivial = trace of >= 40 numbers; distinct = distinct (case, trace) pairs',
+ 'rule': 'seeded random histories (3-50 stimuli quick, 5-120 thorough) over <=4 peers; 45% dialogue-shaped (the generator tracks a rough '
+         'estimate of connections, open commands, carriers and waiting inbound requests so that most stimuli hit), the rest in four random '
+         'styles (outbound-, dial-, inbound-heavy, uniform): send_request with Dial/Reject, cancel_request, '
+         'send_response/send_response_with_feedback/reject_request, ConnectionEstablished (also with a dead command '
+         'channel)/ConnectionClosed/DialFailure/SubstreamOpened/SubstreamOpenFailure in any order, carriers that block, accept or fail '
+         'writes, remote responses/EOF/reset, clock advances across the request timeout, inbound substreams with and without a bound (also '
+         'several request frames on one inbound substream), payload lengths {0,1,2,7,max-1,max,max+1}; the real RequestResponseProtocol '
+         'over a real TransportService is single-stepped until idle after every stimulus, and the user-visible events, the frames that '
+         'reached the remote end and the sorted private bookkeeping (peers/active/active_inbound, pending_dials, pending_outbound, cancel '
+         'handles, the three future counts) are compared with the extracted Coq model after every stimulus; non-trivial = trace of >= 40 '
+         'numbers; distinct = distinct (case, trace) pairs',
  'trusted_base': ['the single-step shim VerifProtocol::step is a cfg-gated COPY of the select! of RequestResponseProtocol::run (same arms, '
                   'same biased order, plus an idle arm); a change to the arms of run itself is not seen by the harness, changes to every '
                   'handler are',
                   'environment of the model = the scripted harness: transport events arrive only through TransportService, the remote side '
-                  'answers a request only after the whole request frame arrived, one request per inbound substream, '
-                  'TransportManagerHandle::dial succeeds exactly for peers with a known address (the manager itself is not run; its dial '
-                  'bookkeeping is C05/C06)',
+                  'answers a request only after the whole request frame arrived, TransportManagerHandle::dial succeeds exactly for peers '
+                  'with a known address (the manager itself is not run; its dial bookkeeping is C05/C06)',
                   'tokio paused clock drives request timeouts; clock advances are chosen so that no deadline is hit exactly',
                   "in-memory carrier under the crate's Substream type (Substream::verif_new); framing itself is C04's subject"],
- 'level_text': 'Proof (partial): for every sequence of stimuli (user commands, transport-service events, carrier events of the remote '
-               'side, clock advances) the model of the event loop emits at most one terminal event per request id (C13_at_most_one, ledger '
-               'invariant over pending_dials / peers[..].active / pending_outbound / in-flight futures); whenever nothing is owed '
-               '(pending_dials and every peers[..].active empty) every request id handed out has exactly one terminal event unless the '
-               'user asked to cancel it (C13_exactly_one_settled_partial); the inbound bound is an invariant (C13_inbound_bound). The '
-               'model is tied to mod.rs/handle.rs by a per-stimulus differential run of the real protocol object with full bookkeeping '
-               "dumps. Payload pairing (a response is the remote answer on that request's substream), one RequestReceived per inbound "
-               "substream and 'nothing outstanding implies nothing owed' are not theorems: they are judged by the oracle prop_ok on every "
-               'implementation trace.',
+ 'level_text': 'Proof: for every sequence of stimuli (user commands, transport-service events in any order, carrier events of the remote '
+               'side, clock advances) the model of the event loop emits at most one terminal event per request id (C13_at_most_one); once '
+               'no dial, no substream opening and no request future is outstanding every request id handed out has exactly one terminal '
+               'event unless the user asked to cancel it (C13_exactly_one; ledger invariant: an unanswered id waits in pending_dials or is '
+               'in peers[..].active, and an active id has a pending_outbound entry or an in-flight future); a ResponseReceived(rid, bytes) '
+               'is caused only by the remote side answering exactly those bytes on a carrier that on_outbound_substream had handed to '
+               "rid's future, carriers and request ids are paired one-to-one (C13_payload: no cross-talk between concurrent requests); a "
+               'RequestReceived is caused only by a request frame on an inbound carrier, carries its bytes, and no carrier yields two '
+               '(C13_responder_once); the inbound bound is an invariant (C13_inbound_bound). The model is tied to mod.rs/handle.rs by a '
+               'per-stimulus differential run of the real protocol object with full bookkeeping dumps; the oracle prop_ok re-judges all '
+               "clauses on the implementation's traces.",
  'level_note': 'The unrepaired code violated the property (F-C13a: a second request to a peer that is still being dialed overwrote '
                'pending_dials[peer]; the first request never got an outcome; C13_unrepaired_refuted) - repaired by a fix: commit, witness '
-               'kept in corpus/C13. Not modelled: fallback protocol names, send_response_with_feedback, a full event/command channel '
+               'kept in corpus/C13. Not modelled: fallback protocol names (would need a hook parameter), a full event/command channel '
                'parking the loop (.await inside handlers), partial frames (C04), a DialPeer command silently refused by the manager '
-               '(F-C05c: then a dial stays outstanding forever and the settled premise never holds).',
+               '(F-C05c: then a dial stays outstanding forever and the quiescence premise never holds). Not theorems (modelled, diffed and '
+               'oracle-checked only): the frame written on the carrier bound to rid is byte-identical to the request given to '
+               'send_request; the feedback of send_response_with_feedback is () only when the response frame went out.',
  'assumptions': ['request ids come from the shared allocator (send_request/try_send_request), never chosen by the user',
-                 "'settled' (nothing owed) is a premise of exactly-one: every dial is eventually answered by ConnectionEstablished or "
-                 'DialFailure, every open_substream by SubstreamOpened or SubstreamOpenFailure, every future ends (response, EOF, timeout)',
+                 'quiescence (no pending dial, no substream being opened, no request future in flight) is a premise of exactly-one: every '
+                 'dial is eventually answered by ConnectionEstablished or DialFailure, every open_substream by SubstreamOpened or '
+                 'SubstreamOpenFailure, every future ends (response, EOF, timeout)',
                  'HashMap/FuturesUnordered iteration order is not observable (events of one step and dumps are sorted)']}
